@@ -422,6 +422,13 @@ class Exec:
             if e is None: raise Unsupported("bare raise", st)
             name = ast.unparse(e.func) if isinstance(e, ast.Call) else ast.unparse(e)
             raise Raised(name, node=st)
+        if isinstance(st, ast.Delete):
+            # `del lst[-1]` is lst.pop(-1) without using the value; other deletions are outside the subset
+            for t in st.targets:
+                if isinstance(t, ast.Subscript) and isinstance(t.slice, ast.UnaryOp) and isinstance(t.slice.op, ast.USub) and isinstance(t.slice.operand, ast.Constant) and t.slice.operand.value == 1:
+                    s.list_method(s.eval(t.value, env), 'pop', [-1], {}, st)
+                else: raise Unsupported("del statement other than `del lst[-1]`", st, env.get('__path__'))
+            return
         if isinstance(st, ast.Pass): return
         if isinstance(st, ast.Try):
             if st.finalbody: raise Unsupported("try/finally", st)
@@ -549,7 +556,10 @@ class Exec:
         """append-only `for step in range(n)` with symbolic n: executed once for generic k in [0, n)"""
         path = env.get('__path__')
         n = rng.n
-        if rng.start != 0: raise Unsupported("range start", st, path)
+        start_ = 0
+        if rng.start != 0:
+            if not isinstance(rng.start, int) or elem_seq is not None: raise Unsupported("range start", st, path)
+            start_ = rng.start; n = lift(n) - start_           # iteration k of n - start runs the body with the loop variable k + start
         grown = {c.func.value.id for c in ast.walk(st) if isinstance(c, ast.Call) and isinstance(c.func, ast.Attribute)
                  and c.func.attr in ('append', 'extend') and isinstance(c.func.value, ast.Name)}
         # `lst += [..]` on a list of the enclosing function is an append in disguise (in-place extend), not a rebinding
@@ -585,7 +595,7 @@ class Exec:
         k = var('k', 'I')
         for L in grown: env[L] = Grow(L, init[L].items, owner=init[L].owner)
         s.assume(band(cmp('>=', k, 0), cmp('<', k, n)), 'generic iteration index')
-        s.assign(st.target, k if elem_seq is None else s.with_invariant(s.seq_get(elem_seq, k)), env)
+        s.assign(st.target, (k + start_ if start_ else k) if elem_seq is None else s.with_invariant(s.seq_get(elem_seq, k)), env)
         mark = len(s.pc)
         s.block(st.body, env)
         rec = dict(kind='recurrence', node=st, n=n, lists={L: env[L] for L in grown}, pc_mark=mark, locals={a: env.get(a) for a in assigned})
@@ -788,9 +798,23 @@ class Exec:
         return s.apply(f, args, kwargs, e)
 
     def e_ListComp(s, e, env):
-        if len(e.generators) != 1 or e.generators[0].ifs: raise Unsupported("comprehension form", e)
+        if len(e.generators) != 1: raise Unsupported("comprehension form", e)
         g = e.generators[0]; it = s.eval(g.iter, env)
         if isinstance(it, Obj): it = s.iter_obj(it, e)
+        if g.ifs:
+            # filtering comprehension: only over lists of concrete length with conditions that evaluate to concrete booleans
+            items = it.items if isinstance(it, PList) else list(it) if isinstance(it, (list, tuple)) else None
+            if items is None: raise Unsupported("filtering comprehension over a list of symbolic length", e)
+            out = []
+            for v in items:
+                env2 = dict(env); s.assign(g.target, v, env2)
+                keep = True
+                for c in g.ifs:
+                    t = s.truth(s.eval(c, env2), e)
+                    if not isinstance(t, bool): raise Unsupported("filtering comprehension with a symbolic condition", e)
+                    keep = keep and t
+                if keep: out.append(s.eval(e.elt, env2))
+            return PList(out)
         def elt(v):
             env2 = dict(env); s.assign(g.target, v, env2); return s.eval(e.elt, env2)
         if isinstance(it, _Range):
@@ -1442,6 +1466,7 @@ def _range(s, *a):
 
 
 def _sum(s, xs, start=0):
+    if isinstance(xs, Post): xs = post_as_seq(xs)
     if isinstance(xs, Seq):
         r = app('Σ', *flatten(xs))
         if not hasattr(s, 'sums'): s.sums = []
@@ -1554,8 +1579,20 @@ BUILTINS = {'float': _float, 'int': _int, 'round': _round, 'getattr': _getattr, 
             'abs': _abs, 'max': _minmax(tmax, max), 'min': _minmax(tmin, min), 'list': _list, 'set': _set, 'copy': _copy,
             'filter': _filter, 'print': lambda s, *a, **k: None, 'str': lambda s, *a: (str(a[0]) if len(a) == 1 and isinstance(a[0], (int, str)) and not isinstance(a[0], bool) else Opaque("str")),
             'tuple': lambda s, x: tuple(x.items) if isinstance(x, PList) else (x if isinstance(x, Seq) else tuple(x)),          # a tuple of symbolic length: the element-wise list itself (never mutated)
-            'dict': lambda s: PDict(),
+            'dict': lambda s: PDict(), 'enumerate': lambda s, x: _enumerate(s, x),
             'hash': lambda s, *a: (s.contracts['__fixed_clock__'] if s.contracts.get('__fixed_clock__') is not None else Opaque("hash")), 'type': lambda s, x: _type_of(s, x), 'open': lambda s, *a, **k: _open(s, *a, **k)}
+
+
+def _enumerate(s, x):
+    """enumerate(list): the list of (index, element) pairs"""
+    if isinstance(x, Post): x = post_as_seq(x)
+    if isinstance(x, PList): return PList([(i, v) for i, v in enumerate(x.items)])
+    if isinstance(x, (list, tuple)): return PList([(i, v) for i, v in enumerate(x)])
+    if isinstance(x, Seq):
+        q = Seq(x.n, lambda i, x=x: (lift(i), x.fn(i)), tag=('enumerate', x.tag))
+        q.conds = x.conds
+        return q
+    raise Unsupported("enumerate(%r)" % (x,))
 
 
 def _type_of(s, x):
